@@ -118,7 +118,15 @@ def run():
         cfg32.update(xdtype="float32", mode=["scalar", "vec", "blobs", "scalar"][j % 4])
         tasks.append(("tvf.checks.c10:cell", dict(cfg=cfg32, c=float([700.0, -950.0, 300.0, 1e3, -64.0, 2 ** 20 + 0.5][j % 6]),
                                                    seeds=[ck.subseed("f32", j, r) % 10 ** 6 for r in range(4)]), None))
-    for i in range(len(tasks) - npin - n32):
+    # likelihood exactly zero on part of the prior, shifted so far that exp(logL + c) under- or overflows: whatever decides
+    # which prior draws are supported must look at the log-likelihood, not at the likelihood
+    nsup = ck.pick(6, 24)
+    for j in range(nsup):
+        cfgs_ = dict(target="support", tkw=dict(f=[0.5, 0.7, 0.3][j % 3], s=[0.05, 0.2][j % 2]), N=[32, 48][j % 2], n_total=[96, 144][j % 2], ess_ratio=[2.0, 3.0][j % 2],
+                     kernel=["tpcn", "rwm"][j % 2], resample=["mult", "syst"][j % 2], clustering=bool(j % 2), mode=["vec", "scalar", "blobs"][j % 3])
+        tasks.append(("tvf.checks.c10:cell", dict(cfg=cfgs_, c=float([-700.0 - math.pi, -650.0 + math.sqrt(2), 705.0 + math.e, -1000.0, 1000.0, -745.2][j % 6]),
+                                                   seeds=[ck.subseed("sup", j, r) % 10 ** 6 for r in range(4)]), None))
+    for i in range(len(tasks) - npin - n32 - nsup):
         if i % 3 == 1:     # a third of the small cells use an irrational shift as well
             tasks[i][1]["c"] = float(tasks[i][1]["c"] * math.sqrt(2) / 1.4)
     for i, st, val in farm.run(tasks, timeout=900, progress="C10"):
@@ -130,6 +138,8 @@ def run():
             ck.violation("pair-crashed", f"{kw['cfg']}: {st} {str(val)[-300:]}", kw)
             continue
         bad, T, npairs = val
+        if kw["cfg"].get("target") == "support" and abs(kw["c"]) >= 600:
+            ck.event("pairs on a target with a zero-likelihood region shifted by |c| >= 650", 1)
         if kw["cfg"].get("xdtype") is not None:
             ck.event("pairs whose prior transform returns single-precision coordinates", 1)
         if kw["cfg"].get("pin_limit") is not None:
